@@ -899,6 +899,8 @@ def r17_1_positions(ctx):
                 and leaves.alpha.text(x.value.generators[0].iter) == '%s[1]' % rp for x in lr)
     if not ok:
         ok = _accumulating_leaf_walk(leaves, rp)
+    if not ok:
+        ok = _generator_leaf_walk(leaves, rp)
     r.check(ok, 'find_leaves returns [message] for a node without causes and the leaves of all causes otherwise', leaves.key('shape'), leaves.loc(),
             'find_leaves no longer collects exactly the messages of the cause-free nodes')
     r.done()
@@ -941,6 +943,32 @@ def _inline_worklist_leaf_walk(g: Fn, rp0: str, rendered: Set[str]) -> bool:
         if flows:
             return True
     return False
+
+
+def _generator_leaf_walk(leaves: Fn, rp: str) -> bool:
+    """the leaf walk as a generator: the message of a cause-free node is yielded, and for every cause the walk of that cause is
+    yielded from; nothing else is yielded, nothing is returned"""
+    a = leaves.alpha
+    ys = [n for n in leaves.walk() if isinstance(n, ast.Yield) and leaves.live(n)]
+    yfs = [n for n in leaves.walk() if isinstance(n, ast.YieldFrom) and leaves.live(n)]
+    if len(ys) != 1 or len(yfs) != 1 or any(x.value is not None for x in leaves.returns()):
+        return False
+    y, yf = ys[0], yfs[0]
+    if y.value is None or a.text(y.value) != '%s[0]' % rp:
+        return False
+    if {a.atom(g_, p_) for g_, p_ in leaves.guards(y)} != {('%s[1]' % rp, False)}:
+        return False
+    rc = yf.value
+    if not (isinstance(rc, ast.Call) and call_name(rc) == leaves.fi.name and len(rc.args) == 1 and not rc.keywords):
+        return False
+    los = [lo for lo in enclosing_loops(yf, leaves.node) if isinstance(lo, ast.For)]
+    if len(los) != 1 or a.text(los[0].iter) != '%s[1]' % rp or norm(rc.args[0]) != norm(los[0].target) or los[0].orelse:
+        return False
+    if any(isinstance(x, (ast.Break, ast.Continue, ast.Return)) for st in los[0].body for x in ast.walk(st)):
+        return False
+    if any(t != ('%s[1]' % rp, True) for t in {a.atom(g_, p_) for g_, p_ in leaves.guards(yf)}):
+        return False
+    return True
 
 
 def _accumulating_leaf_walk(leaves: Fn, rp: str) -> bool:
